@@ -651,6 +651,8 @@ func mutateText(r *rand.Rand, s string) string {
 
 var chainLits = []string{"0", "1", "2", "-1", "0x1", "01", "00", "true", "false", `"a"`, `'a'`, `""`, `"\x61"`, "4294967295", "4294967296", "-2147483648", "18446744073709551615", "9223372036854775808"}
 
+var boolSpellings = []string{"true", "false", "True", "TRUE", "T", "t", "False", "FALSE", "F", "f", "1", "0"}
+
 // chainTokens strings tokens together so that the sequence is locally plausible (name, '.', name,
 // '[', literal, ']', ...) without looking at any type: names come from all message types, so
 // most chains are ill-typed in some way the parser has to notice (field of a list, index of a
@@ -827,6 +829,32 @@ func run(c *core.Ctx) {
 	for i := base3; i < base3+nOSFault; i++ {
 		if c.Mine(i) {
 			k.osWriteFault(i, c.Rand(i))
+		}
+	}
+	// Boolean-key spellings (round 7, C19-r7m1), again after everything that existed before: a Boolean-keyed map indexed
+	// with every spelling strconv.ParseBool knows; the reference grammar has only true / false for Boolean keys.
+	base4 := base3 + nOSFault
+	for j, sp := range boolSpellings {
+		for v, tail := range []string{"", ".nested", ".nested.nested"} {
+			if i := base4 + j*3 + v; c.Mine(i) {
+				r := c.Rand(i)
+				text := "boolkeymap[" + sp + "]" + tail
+				gen := "bool-key-spelling/" + sp
+				c.Begin(i, gen, entParse+"+"+entEval, []byte(text))
+				msgs := []namedMsg{{"random", pathref.RandMessage(r, rtTest.mt)}, {"random2", pathref.RandMessage(r, rtTest.mt)}, {"empty", rtTest.mt.New()}}
+				if k.evalText(i, "soup", gen, text, rtTest, msgs,
+					func(m protoreflect.Message, p protopath.Path) pathref.Walked { return pathref.WalkProtopath(m, p) }, nil) {
+					c.Count("bool-key-spelling-parsed/"+sp, 1)
+					if sp != "true" && sp != "false" && sp != "1" && sp != "0" { // (1 and 0 are numbers, counted only) the path grammar has two Boolean keys; any other identifier in an index addresses nothing
+						c.Violate(core.Violation{Kind: "oracle", Entry: entParse, Site: "identifier-other-than-true-false-accepted-as-boolean-key", Gen: gen, Case: i,
+							Detail:  fmt.Sprintf("path %q parsed: the index %q is neither true nor false, so the path addresses no element of the Boolean-keyed map and parsing has to fail", text, sp),
+							Witness: map[string]any{"path": text}})
+					}
+				} else {
+					c.Count("bool-key-spelling-rejected/"+sp, 1)
+				}
+				c.End(i)
+			}
 		}
 	}
 	for _, what := range append(append([]string{}, osFaultCallers...), osFaultDests...) {
